@@ -7,6 +7,7 @@ use crate::sut::*;
 use checks_ice::domain::Domain;
 use iceoryx2::node::{Node, NodeBuilder};
 use iceoryx2::service::Service;
+use iceoryx2_bb_container::semantic_string::SemanticString;
 use proptest::prelude::*;
 use serde::{Deserialize, Serialize};
 use std::any::Any;
@@ -24,6 +25,9 @@ pub enum Op {
     /// creates a port from a live handle; kind 0 / 1 see `Handle::make_port`
     CreatePort { h: u16, kind: u8 },
     DropPort(u16),
+    /// drops every handle and port of the service a live handle belongs to (one by one, ports
+    /// first), i.e. takes that service to zero users
+    DropService(u16),
 }
 
 #[derive(Clone, Debug, Serialize, Deserialize)]
@@ -87,6 +91,9 @@ fn run_in<S: Service + 'static>(dom: &Domain, case: &SeqCase, obs: &mut Obs) -> 
     let mut recreated_differently = false;
     let mut last_settings: BTreeMap<Key, Spec> = BTreeMap::new();
     obs.class(if case.ipc { "seq/ipc" } else { "seq/local" });
+    // existence is compared for every (name, pattern) the case touches
+    let mut universe: BTreeSet<Key> = case.ops.iter().filter_map(|o| if let Op::Call { name, spec, .. } = o { Some((*name % NAMES, spec.pattern())) } else { None }).collect();
+    universe.insert((0, Pattern::Event));
 
     let result = (|| -> Result<(), Failure> {
         for (step, op) in case.ops.iter().enumerate() {
@@ -190,18 +197,24 @@ fn run_in<S: Service + 'static>(dom: &Domain, case: &SeqCase, obs: &mut Obs) -> 
                         drop(p);
                     }
                 }
+                Op::DropService(i) => {
+                    if !handles.is_empty() {
+                        let key = handles[idx(*i, handles.len())].key;
+                        ports.retain(|p| p.key != key);
+                        while let Some(k) = handles.iter().position(|h| h.key == key) {
+                            let h = handles.remove(k);
+                            drop(h);
+                        }
+                    }
+                }
             }
             // the model keeps a service exactly as long as it has users (handles and ports)
             let alive: BTreeSet<Key> = handles.iter().map(|h| h.key).chain(ports.iter().map(|p| p.key)).collect();
-            let before = services.len();
             services.retain(|k, _| alive.contains(k));
-            if services.len() < before && ports.iter().any(|_| true) {
-                obs.class("seq/service_ended_while_other_ports_live");
-            }
-            if handles.iter().all(|h| !alive.contains(&h.key) || ports.iter().any(|p| p.key == h.key)) && !ports.is_empty() && ports.iter().any(|p| !handles.iter().any(|h| h.key == p.key)) {
+            if ports.iter().any(|p| !handles.iter().any(|h| h.key == p.key)) {
                 obs.class("seq/service_kept_alive_by_ports_only");
             }
-            invariant::<S>(dom, &services, step)?;
+            invariant::<S>(dom, &universe, &services, step)?;
         }
         Ok(())
     })();
@@ -210,7 +223,7 @@ fn run_in<S: Service + 'static>(dom: &Domain, case: &SeqCase, obs: &mut Obs) -> 
     handles.clear();
     result?;
     services.clear();
-    invariant::<S>(dom, &services, usize::MAX)?;
+    invariant::<S>(dom, &universe, &services, usize::MAX)?;
     drop(nodes);
     obs.nontrivial = opened_with_requirement && recreated;
     if recreated_differently {
@@ -219,14 +232,12 @@ fn run_in<S: Service + 'static>(dom: &Domain, case: &SeqCase, obs: &mut Obs) -> 
     Ok(())
 }
 
-fn invariant<S: Service>(dom: &Domain, services: &BTreeMap<Key, Snap>, step: usize) -> Result<(), Failure> {
-    for n in 0..NAMES {
+fn invariant<S: Service + 'static>(dom: &Domain, universe: &BTreeSet<Key>, services: &BTreeMap<Key, Snap>, step: usize) -> Result<(), Failure> {
+    for (n, p) in universe.iter().copied() {
         let sname = service_name(&name_of(n));
-        for p in PATTERNS {
-            let want = services.contains_key(&(n, p));
-            let got = does_exist::<S>(&dom.config, &sname, p).map_err(|e| Failure::new("seq.does_exist_error", format!("step {step}: does_exist({}, {p:?}) failed: {e}", name_of(n))))?;
-            ensure!(got == want, if want { "seq.service_vanished_with_users" } else { "seq.service_outlives_users" }, "step {step}: does_exist({}, {p:?}) = {got}, the model has {} users", name_of(n), if want { "live" } else { "no" });
-        }
+        let want = services.contains_key(&(n, p));
+        let got = does_exist::<S>(&dom.config, &sname, p).map_err(|e| Failure::new("seq.does_exist_error", format!("step {step}: does_exist({}, {p:?}) failed: {e}", name_of(n))))?;
+        ensure!(got == want, if want { "seq.service_vanished_with_users" } else { "seq.service_outlives_users" }, "step {step}: does_exist({}, {p:?}) = {got}, the model has {} users", name_of(n), if want { "live" } else { "no" });
     }
     let listed = list::<S>(&dom.config).map_err(|e| Failure::new("seq.list_error", format!("step {step}: {e}")))?;
     let mut want: Vec<Snap> = services.values().cloned().collect();
@@ -242,58 +253,78 @@ fn invariant<S: Service>(dom: &Domain, services: &BTreeMap<Key, Snap>, step: usi
 // ---------------------------------------------------------------------------------------------
 // generators
 
-fn lim(zero: bool) -> BoxedStrategy<Option<u8>> {
-    if zero { prop_oneof![4 => Just(None), 1 => Just(Some(0u8)), 2 => Just(Some(1)), 2 => Just(Some(2)), 1 => Just(Some(4))].boxed() } else { prop_oneof![4 => Just(None), 2 => Just(Some(1u8)), 2 => Just(Some(2)), 1 => Just(Some(4))].boxed() }
+/// creators mostly set generous limits, openers mostly state few and small requirements, so that
+/// a good share of the opens succeeds
+fn lim(creator: bool) -> BoxedStrategy<Option<u8>> {
+    if creator { prop_oneof![4 => Just(None), 1 => Just(Some(0u8)), 1 => Just(Some(1)), 3 => Just(Some(2)), 3 => Just(Some(4))].boxed() } else { prop_oneof![14 => Just(None), 1 => Just(Some(0u8)), 2 => Just(Some(1)), 2 => Just(Some(2)), 1 => Just(Some(4))].boxed() }
 }
-fn flag() -> BoxedStrategy<Option<bool>> {
-    prop_oneof![3 => Just(None), 1 => Just(Some(true)), 1 => Just(Some(false))].boxed()
+fn flag(creator: bool) -> BoxedStrategy<Option<bool>> {
+    if creator { prop_oneof![3 => Just(None), 1 => Just(Some(true)), 1 => Just(Some(false))].boxed() } else { prop_oneof![10 => Just(None), 1 => Just(Some(true)), 1 => Just(Some(false))].boxed() }
 }
-fn evid() -> BoxedStrategy<Option<Option<u8>>> {
-    prop_oneof![4 => Just(None), 1 => Just(Some(None)), 1 => Just(Some(Some(1u8))), 1 => Just(Some(Some(2)))].boxed()
+fn evid(creator: bool) -> BoxedStrategy<Option<Option<u8>>> {
+    if creator { prop_oneof![3 => Just(None), 1 => Just(Some(None)), 1 => Just(Some(Some(1u8))), 1 => Just(Some(Some(2)))].boxed() } else { prop_oneof![12 => Just(None), 1 => Just(Some(None)), 1 => Just(Some(Some(1u8))), 1 => Just(Some(Some(2)))].boxed() }
+}
+fn deadline(creator: bool) -> BoxedStrategy<Option<Option<u16>>> {
+    if creator { prop_oneof![4 => Just(None), 1 => Just(Some(None)), 1 => Just(Some(Some(10u16))), 1 => Just(Some(Some(20)))].boxed() } else { prop_oneof![12 => Just(None), 1 => Just(Some(None)), 1 => Just(Some(Some(10u16))), 1 => Just(Some(Some(20)))].boxed() }
 }
 fn tyidx(n: u8) -> BoxedStrategy<u8> {
-    prop_oneof![5 => Just(0u8), 2 => 0..n].boxed()
+    prop_oneof![10 => Just(0u8), 2 => 0..n].boxed()
 }
-fn align() -> BoxedStrategy<Option<u8>> {
-    prop_oneof![6 => Just(None), 1 => Just(Some(3u8)), 1 => Just(Some(4)), 1 => Just(Some(6))].boxed()
+fn align(creator: bool) -> BoxedStrategy<Option<u8>> {
+    if creator { prop_oneof![6 => Just(None), 1 => Just(Some(3u8)), 1 => Just(Some(4)), 1 => Just(Some(6))].boxed() } else { prop_oneof![16 => Just(None), 1 => Just(Some(3u8)), 1 => Just(Some(4)), 1 => Just(Some(6))].boxed() }
 }
-fn attrs() -> BoxedStrategy<(Vec<(u8, u8)>, Vec<u8>)> {
-    let pairs = prop_oneof![5 => Just(vec![]), 1 => Just(vec![(0u8, 0u8)]), 1 => Just(vec![(0, 1)]), 1 => Just(vec![(0, 0), (0, 1)]), 1 => Just(vec![(1, 0)])];
-    let keys = prop_oneof![6 => Just(vec![]), 1 => Just(vec![0u8]), 1 => Just(vec![1])];
-    (pairs, keys).boxed()
+fn attrs(creator: bool) -> BoxedStrategy<(Vec<(u8, u8)>, Vec<u8>)> {
+    if creator {
+        (prop_oneof![3 => Just(vec![]), 2 => Just(vec![(0u8, 0u8)]), 1 => Just(vec![(0, 1)]), 2 => Just(vec![(0, 0), (0, 1)]), 1 => Just(vec![(1, 0)])], Just(vec![])).boxed()
+    } else {
+        (prop_oneof![10 => Just(vec![]), 1 => Just(vec![(0u8, 0u8)]), 1 => Just(vec![(0, 1)]), 1 => Just(vec![(1, 0)])], prop_oneof![10 => Just(vec![]), 1 => Just(vec![0u8]), 1 => Just(vec![1])]).boxed()
+    }
 }
 
-pub fn spec_strategy(p: Pattern) -> BoxedStrategy<Spec> {
+/// `creator`: settings for a `create`; otherwise requirements for an `open` / `open_or_create`
+pub fn spec_strategy(p: Pattern, creator: bool) -> BoxedStrategy<Spec> {
+    let c = creator;
     let set: BoxedStrategy<Set> = match p {
-        Pattern::PubSub => ((tyidx(N_PAYLOADS), prop_oneof![5 => Just(0u8), 1 => 0..N_HEADERS], align(), lim(true), lim(true)), (lim(true), lim(true), lim(true), lim(true), flag()))
+        Pattern::PubSub => ((tyidx(N_PAYLOADS), prop_oneof![10 => Just(0u8), 1 => 0..N_HEADERS], align(c), lim(c), lim(c)), (lim(c), lim(c), lim(c), lim(c), flag(c)))
             .prop_map(|((ty, hdr, align, pubs, subs), (nodes, history, buffer, borrowed, overflow))| Set::Ps(PsSet { ty, hdr, align, pubs, subs, nodes, history, buffer, borrowed, overflow }))
             .boxed(),
-        Pattern::Event => (lim(true), lim(true), lim(true), prop_oneof![3 => Just(None), 1 => Just(Some(4u8)), 1 => Just(Some(8))], evid(), evid(), evid(), prop_oneof![4 => Just(None), 1 => Just(Some(None)), 1 => Just(Some(Some(10u16))), 1 => Just(Some(Some(20)))])
+        Pattern::Event => (lim(c), lim(c), lim(c), prop_oneof![6 => Just(None), 1 => Just(Some(4u8)), 1 => Just(Some(8))], evid(c), evid(c), evid(c), deadline(c))
             .prop_map(|(notifiers, listeners, nodes, max_id, created, dropped, dead, deadline)| Set::Ev(EvSet { notifiers, listeners, nodes, max_id, created, dropped, dead, deadline }))
             .boxed(),
-        Pattern::ReqRes => ((tyidx(N_PAYLOADS), prop_oneof![6 => Just(0u8), 1 => 0..N_HEADERS], tyidx(N_PAYLOADS), prop_oneof![6 => Just(0u8), 1 => 0..N_HEADERS], align(), align()), (lim(true), lim(true), lim(true), lim(true), lim(true), lim(true), lim(true)), (flag(), flag(), flag()))
+        Pattern::ReqRes => ((tyidx(N_PAYLOADS), prop_oneof![12 => Just(0u8), 1 => 0..N_HEADERS], tyidx(N_PAYLOADS), prop_oneof![12 => Just(0u8), 1 => 0..N_HEADERS], align(c), align(c)), (lim(c), lim(c), lim(c), lim(c), lim(c), lim(c), lim(c)), (flag(c), flag(c), flag(c)))
             .prop_map(|((req, req_hdr, res, res_hdr, req_align, res_align), (active, loaned, borrowed, buffer, servers, clients, nodes), (ovf_req, ovf_res, faf))| Set::Rr(RrSet { req, req_hdr, res, res_hdr, req_align, res_align, active, loaned, borrowed, buffer, servers, clients, nodes, ovf_req, ovf_res, faf }))
             .boxed(),
-        Pattern::Blackboard => (prop_oneof![5 => Just(0u8), 2 => 0..N_KEYS], lim(true), lim(true), prop_oneof![1 => Just(0u8), 8 => Just(1), 3 => Just(3)]).prop_map(|(key, readers, nodes, entries)| Set::Bb(BbSet { key, readers, nodes, entries })).boxed(),
+        Pattern::Blackboard => (prop_oneof![8 => Just(0u8), 2 => 0..N_KEYS], lim(c), lim(c), prop_oneof![1 => Just(0u8), 10 => Just(1), 3 => Just(3)]).prop_map(|(key, readers, nodes, entries)| Set::Bb(BbSet { key, readers, nodes, entries })).boxed(),
     };
-    (set, attrs()).prop_map(|(set, (attrs, req_keys))| Spec { set, attrs, req_keys }.legalized()).boxed()
+    (set, attrs(c)).prop_map(|(set, (attrs, req_keys))| Spec { set, attrs, req_keys }.legalized()).boxed()
+}
+
+fn call_strategy(main: Pattern) -> BoxedStrategy<Op> {
+    let pattern = || prop_oneof![12 => Just(main), 1 => Just(Pattern::PubSub), 1 => Just(Pattern::Event), 1 => Just(Pattern::ReqRes), 1 => Just(Pattern::Blackboard)];
+    let node = || 0u8..3;
+    let name = || prop_oneof![8 => Just(0u8), 1 => Just(1u8)];
+    prop_oneof![
+        3 => (node(), name(), pattern().prop_flat_map(|p| spec_strategy(p, true))).prop_map(|(node, name, spec)| Op::Call { node, name, verb: Verb::Create, spec }),
+        6 => (node(), name(), pattern().prop_flat_map(|p| spec_strategy(p, false))).prop_map(|(node, name, spec)| Op::Call { node, name, verb: Verb::Open, spec }),
+        3 => (node(), name(), pattern().prop_flat_map(|p| spec_strategy(p, false))).prop_map(|(node, name, spec)| Op::Call { node, name, verb: Verb::OpenOrCreate, spec }),
+    ]
+    .boxed()
 }
 
 fn op_strategy(main: Pattern) -> BoxedStrategy<Op> {
-    let pattern = prop_oneof![6 => Just(main), 1 => Just(Pattern::PubSub), 1 => Just(Pattern::Event), 1 => Just(Pattern::ReqRes), 1 => Just(Pattern::Blackboard)];
-    let call = (0u8..3, prop_oneof![3 => Just(0u8), 1 => Just(1u8)], prop_oneof![3 => Just(Verb::Create), 4 => Just(Verb::Open), 2 => Just(Verb::OpenOrCreate)], pattern.prop_flat_map(spec_strategy)).prop_map(|(node, name, verb, spec)| Op::Call { node, name, verb, spec });
     prop_oneof![
-        10 => call,
-        4 => any::<u16>().prop_map(Op::DropHandle),
+        12 => call_strategy(main),
+        2 => any::<u16>().prop_map(Op::DropHandle),
         2 => (any::<u16>(), 0u8..2).prop_map(|(h, kind)| Op::CreatePort { h, kind }),
         2 => any::<u16>().prop_map(Op::DropPort),
+        2 => any::<u16>().prop_map(Op::DropService),
     ]
     .boxed()
 }
 
 pub fn case_strategy(max_ops: usize) -> BoxedStrategy<SeqCase> {
     (any::<bool>(), 1u8..=3, prop_oneof![Just(Pattern::PubSub), Just(Pattern::Event), Just(Pattern::ReqRes), Just(Pattern::Blackboard)])
-        .prop_flat_map(move |(ipc, nodes, main)| (Just(ipc), Just(nodes), proptest::collection::vec(op_strategy(main), 1..=max_ops)))
+        .prop_flat_map(move |(ipc, nodes, main)| (Just(ipc), Just(nodes), proptest::collection::vec(op_strategy(main), 4..=max_ops)))
         .prop_map(|(ipc, nodes, ops)| SeqCase { ipc, nodes, ops })
         .boxed()
 }
